@@ -38,6 +38,9 @@ const VERSIONS: &[&str] = &["1.0.0", "0.3.1-rc.1", "1.2.3+b.7", "1.2.3"];
 
 const WIT_OK: &str = "package ns:pkg;\ninterface i { f: func(); }\nworld w { export i; }\n";
 const WIT_BAD: &str = "package ns:pkg;\ninterface i { f: func( }\n";
+/// A WIT package that refers to another package stored under its own `deps/`.
+const WIT_DEPS_MAIN: &str = "package ns:pkg;\ninterface i { use dep:types/api.{t}; f: func() -> t; }\nworld w { import dep:types/api; export i; }\n";
+const WIT_DEPS_TYPES: &str = "package dep:types;\ninterface api { type t = u32; g: func() -> t; }\n";
 
 #[derive(Debug, Clone, PartialEq)]
 enum Outcome {
@@ -186,14 +189,14 @@ fn choose(t: &mut Tape, n: u64, presets: &mut Option<std::vec::IntoIter<u64>>) -
 }
 
 const ENUM_NAMES: [u64; 3] = [0, 1, 3]; // "solo", "ns:pkg", "a:b:c"
-const ENUM_BASE: [u64; 4] = [0, 1, 2, 3];
+const ENUM_BASE: [u64; 5] = [0, 1, 2, 3, 4];
 const ENUM_WASM: [u64; 4] = [0, 4, 6, 7];
 const ENUM_WAT: [u64; 5] = [0, 4, 6, 8, 9];
 const ENUM_OVERRIDE: [u64; 7] = [0, 1, 2, 3, 4, 5, 11];
 
 /// Single-key decision-table cells per build: mode x name shape x (unversioned | 4 versions x decoy)
 /// x base x wasm x wat x override.
-pub const CELLS_PER_BUILD: u64 = 2 * 3 * (1 + 4 * 2) * 4 * 4 * 5 * 7;
+pub const CELLS_PER_BUILD: u64 = 2 * 3 * (1 + 4 * 2) * 5 * 4 * 5 * 7;
 pub const BUILDS: u64 = 3;
 
 fn presets_for_cell(mut c: u64) -> Vec<u64> {
@@ -205,7 +208,7 @@ fn presets_for_cell(mut c: u64) -> Vec<u64> {
     let mode = take(2);
     let name = ENUM_NAMES[take(3) as usize];
     let ver = take(9); // 0 = unversioned; 1..=8 = version (ver-1)/2, decoy (ver-1)%2
-    let base = ENUM_BASE[take(4) as usize];
+    let base = ENUM_BASE[take(5) as usize];
     let wasm = ENUM_WASM[take(4) as usize];
     let wat = ENUM_WAT[take(5) as usize];
     let ov = ENUM_OVERRIDE[take(7) as usize];
@@ -308,6 +311,15 @@ pub fn run(run: &mut Run) {
             2 => {
                 tree.file(format!("{base}/pkg.wit"), WIT_BAD.as_bytes().to_vec());
                 "dir-wit-bad"
+            }
+            4 => {
+                tree.file(format!("{base}/pkg.wit"), WIT_DEPS_MAIN.as_bytes().to_vec());
+                if t.chance(1, 2) {
+                    tree.file(format!("{base}/deps/types/types.wit"), WIT_DEPS_TYPES.as_bytes().to_vec());
+                } else {
+                    tree.file(format!("{base}/deps/types.wit"), WIT_DEPS_TYPES.as_bytes().to_vec());
+                }
+                "dir-wit-with-deps"
             }
             _ => "absent",
         };
